@@ -1038,7 +1038,8 @@ Section TypedBody.
     - exists e. split; [reflexivity|]. eapply typed_body_errors_400, E.
   Qed.
 
-  (* C10: malformed JSON (whatever the parser refuses) is a 400 *)
+  (* C10: malformed JSON - whatever is not, as a whole, one JSON text of the
+     body type ([json_de] is the whole-buffer parser) - is a 400 *)
   Theorem malformed_json_refused sp h cap frames body :
     buffer_body cap frames = Ok body -> json_de body = None ->
     exists e, extract_typed_body json_de CtJson sp h cap frames = Err e
@@ -1267,22 +1268,11 @@ Proof.
   rewrite Hb. reflexivity.
 Qed.
 
-Corollary multipart_boundary_extracted T S ps b :
-  str_lower T = S_MULTIPART -> str_lower S = S_FORM_DATA ->
-  Forall cparam_ok ps ->
-  assoc S_BOUNDARY (map (fun p => (str_lower (cp_name p), cp_value p)) ps) = Some b ->
-  header_is_str (T ++ 47 :: S ++ render_params ps) = true ->
-  extract_multipart (HVal (T ++ 47 :: S ++ render_params ps)) = Ok b.
-Proof.
-  intros HT HS Hps Hb Hh. cbn [extract_multipart]. rewrite Hh.
-  rewrite (multipart_boundary _ _ _ _ HT HS Hps Hb). reflexivity.
-Qed.
-
 Theorem multipart_errors_400 h e : extract_multipart h = Err e -> xerr_status e = Some 400.
 Proof.
   destruct h as [|v]; cbn [extract_multipart]; [intros [= <-]; reflexivity|].
   destruct (header_is_str v); [|intros [= <-]; reflexivity].
-  destruct (parse_boundary v); try discriminate; intros [= <-]; reflexivity.
+  destruct (parse_boundary _); try discriminate; intros [= <-]; reflexivity.
 Qed.
 
 (* ------------------------------------------------------ C09: isolation *)
@@ -1731,58 +1721,7 @@ Proof.
   destruct (_ <=? _); [discriminate|]. intros [= <-]. reflexivity.
 Qed.
 
-(* ---- C10, malformed JSON: the clause as the property states it, and why it
-   fails.  Two readings of "the body parses": [json_de], what body.rs calls (a
-   value off the FRONT of the buffer), and [json_strict], the whole buffer is
-   one JSON text of the type (RFC 8259 JSON-text = ws value ws). ---- *)
-Section JsonTrailing.
-  Variable V : Type.
-  Variable json_de : str -> option V.
-  Variable json_strict : str -> option V.
-
-  (* the clause in full: whatever is not a JSON text of the type is refused *)
-  Definition malformed_json_refused_full_statement : Prop :=
-    forall sp h cap frames body,
-      buffer_body cap frames = Ok body -> json_strict body = None ->
-      exists e, extract_typed_body json_de CtJson sp h cap frames = Err e.
-
-  (* what the code does instead: a buffer the front parser gets a value out of
-     is accepted - the handler is entered with that value - whether or not the
-     buffer as a whole is a JSON text *)
-  Theorem json_front_value_accepted sp h cap frames body v :
-    (h = HAbsent \/ exists ct, h = HVal ct /\ ct_spelling CT_JSON ct) ->
-    buffer_body cap frames = Ok body -> json_de body = Some v ->
-    handle (extract_typed_body json_de CtJson sp h cap frames) = HandlerEntered (TJson v).
-  Proof.
-    intros Hh Hb Hj. unfold extract_typed_body. rewrite Hb. cbn [bind].
-    assert (Hm : exists ct, content_type_str h = Ok ct /\ mime_type_of ct = CT_JSON).
-    { destruct Hh as [->|(ct & -> & Hs)].
-      - exists CT_JSON. split; reflexivity.
-      - exists ct. split; [eapply content_type_spelling, Hs|].
-        apply mime_type_of_spelling; [reflexivity|exact Hs]. }
-    destruct Hm as (ct & -> & Hmt). cbn [bind]. rewrite Hmt.
-    change (from_mime_type CT_JSON) with (Some CtJson). cbn iota. rewrite Hj. reflexivity.
-  Qed.
-
-  (* so any buffer on which the two readings differ refutes the clause *)
-  Theorem malformed_json_refused_refuted body v :
-    json_de body = Some v -> json_strict body = None ->
-    ~ malformed_json_refused_full_statement.
-  Proof.
-    intros Hd Hs Hfull.
-    destruct (Hfull [] HAbsent (total [body]) [body] body) as [e He].
-    - rewrite buffer_body_spec. rewrite N.leb_refl. cbn [concat]. rewrite app_nil_r. reflexivity.
-    - exact Hs.
-    - pose proof (json_front_value_accepted [] HAbsent (total [body]) [body] body v
-                    (or_introl eq_refl)) as H.
-      rewrite He in H. cbn [handle] in H.
-      assert (Hb : buffer_body (total [body]) [body] = Ok body).
-      { rewrite buffer_body_spec. rewrite N.leb_refl. cbn [concat]. rewrite app_nil_r. reflexivity. }
-      specialize (H Hb Hd). discriminate.
-  Qed.
-End JsonTrailing.
-
-(* ---- C09, the two open classes, as facts about the model ---- *)
+(* ---- C09, the open class K-Q128, as a fact about the model ---- *)
 
 (* K-Q128: a u128 / i128 field of a query (or url-encoded body) is refused
    whatever text is sent for it *)
@@ -1824,31 +1763,6 @@ Proof.
   rewrite H in E; [discriminate| |].
   - constructor; [reflexivity|constructor].
   - constructor; [split; reflexivity|constructor].
-Qed.
-
-(* K-MPOWS: the media-type grammar allows optional white space before the ';'
-   that introduces a parameter (RFC 9110 5.6.6: *( OWS ";" OWS parameter )) *)
-Definition multipart_boundary_ows_full_statement : Prop :=
-  forall T S pad ps b,
-    str_lower T = S_MULTIPART -> str_lower S = S_FORM_DATA ->
-    forallb (fun c => (c =? 32) || (c =? 9)) pad = true ->
-    Forall cparam_ok ps ->
-    assoc S_BOUNDARY (map (fun p => (str_lower (cp_name p), cp_value p)) ps) = Some b ->
-    parse_boundary (T ++ 47 :: S ++ pad ++ render_params ps) = BOk b.
-
-Theorem multipart_boundary_ows_refuted : ~ multipart_boundary_ows_full_statement.
-Proof.
-  intros H.
-  specialize (H S_MULTIPART S_FORM_DATA [32]
-                [{| cp_spaces := 1; cp_name := S_BOUNDARY; cp_value := [88; 66];
-                    cp_quoted := false; cp_trail := 0 |}] [88; 66] eq_refl eq_refl eq_refl).
-  assert (E : parse_boundary
-                (S_MULTIPART ++ 47 :: S_FORM_DATA ++ [32] ++
-                 render_params [{| cp_spaces := 1; cp_name := S_BOUNDARY; cp_value := [88; 66];
-                                   cp_quoted := false; cp_trail := 0 |}]) = BDecode)
-    by (vm_compute; reflexivity).
-  rewrite H in E; [discriminate| |reflexivity].
-  constructor; [|constructor]. repeat split; try discriminate; reflexivity.
 Qed.
 
 (* ---- registration rules out the missing-field error for path structs ---- *)
@@ -1941,3 +1855,229 @@ Proof. intros H. cbn [parse_scalar]. rewrite H. reflexivity. Qed.
 Lemma out_of_range_unparsable sg bits z :
   int_in_range sg bits z = false -> parse_scalar (TInt sg bits) (print_int z) = None.
 Proof. intros H. cbn [parse_scalar]. rewrite (parse_int_refuses_out_of_range _ _ _ H). reflexivity. Qed.
+
+
+(* ---------- C09 clause 5 with optional white space (RFC 9110 5.6.6:
+   parameters = *( OWS ";" OWS [ parameter ] )): body.rs trims the ';'-separated
+   parts before the media-type parser sees them ---------- *)
+
+Definition blank (c : N) : bool := (c =? 32) || (c =? 9).
+
+Lemma blank_ws c : blank c = true -> is_ascii_ws c = true.
+Proof. unfold blank, is_ascii_ws. lia. Qed.
+
+Lemma trim_start_blanks pad x c :
+  forallb blank pad = true -> is_ascii_ws c = false -> trim_start (pad ++ c :: x) = c :: x.
+Proof.
+  intros Hp Hc. induction pad as [|b pad IH]; cbn [app trim_start].
+  - rewrite Hc. reflexivity.
+  - cbn [forallb] in Hp. apply andb_true_iff in Hp as [Hb Hp]. rewrite (blank_ws _ Hb). apply IH, Hp.
+Qed.
+
+Lemma trim_end_last a c pad :
+  is_ascii_ws c = false -> forallb blank pad = true -> trim_end (a ++ c :: pad) = a ++ [c].
+Proof.
+  intros Hc Hp.
+  assert (Hpad : trim_end pad = []).
+  { apply trim_end_ws. rewrite forallb_forall in *. intros x Hx. apply blank_ws, Hp, Hx. }
+  induction a as [|x a IH]; cbn [app trim_end].
+  - rewrite Hpad, Hc. reflexivity.
+  - rewrite IH. destruct (a ++ [c]) eqn:E; [destruct a; discriminate|reflexivity].
+Qed.
+
+(* a piece [pad1 ++ core ++ pad2] trims to [core] when the core starts and ends
+   with a non-blank *)
+Lemma trim_piece pad1 pad2 c x l :
+  forallb blank pad1 = true -> forallb blank pad2 = true ->
+  is_ascii_ws c = false -> is_ascii_ws l = false ->
+  trim (pad1 ++ (c :: x ++ [l]) ++ pad2) = c :: x ++ [l].
+Proof.
+  intros H1 H2 Hc Hl. unfold trim.
+  replace (pad1 ++ (c :: x ++ [l]) ++ pad2) with (pad1 ++ c :: (x ++ l :: pad2))
+    by (cbn [app]; rewrite <- app_assoc; reflexivity).
+  rewrite (trim_start_blanks _ _ _ H1 Hc).
+  replace (c :: x ++ l :: pad2) with ((c :: x) ++ l :: pad2) by reflexivity.
+  rewrite (trim_end_last _ _ _ Hl H2). reflexivity.
+Qed.
+
+Lemma split_all_concat sep a xs :
+  ~ In sep a -> Forall (fun x => ~ In sep x) xs ->
+  split_all sep (a ++ concat (map (fun x => sep :: x) xs)) = a :: xs.
+Proof.
+  intros Ha Hxs. revert a Ha. induction Hxs as [|x xs Hx _ IH]; intros a Ha; cbn [map concat].
+  - rewrite app_nil_r. apply split_all_none, Ha.
+  - cbn [app]. rewrite (split_all_app _ _ _ Ha). f_equal.
+    change (x ++ concat (map (fun x0 => sep :: x0) xs)) with (x ++ concat (map (fun x0 => sep :: x0) xs)).
+    apply IH, Hx.
+Qed.
+
+Lemma join_semi_cons a cores :
+  join_semi (a :: cores) = a ++ concat (map (fun c => 59 :: 32 :: c) cores).
+Proof.
+  revert a. induction cores as [|c cores IH]; intros a.
+  - cbn [join_semi map concat]. rewrite app_nil_r. reflexivity.
+  - change (join_semi (a :: c :: cores)) with (a ++ 59 :: 32 :: join_semi (c :: cores)).
+    rewrite IH. cbn [map concat app]. reflexivity.
+Qed.
+
+(* the text of a parameter: name '=' token | name '=' '"' value '"' *)
+Definition core_of (p : cparam) : str :=
+  cp_name p ++ 61 :: (if cp_quoted p then 34 :: cp_value p ++ [34] else cp_value p).
+
+(* a parameter as it may stand in the header: ';' blanks core blanks (the
+   blanks after the core are what precedes the next ';' or ends the header) *)
+Definition oparam := (str * cparam * str)%type.
+Definition render_oparam (o : oparam) : str :=
+  let '(post, p, trail) := o in post ++ core_of p ++ trail.
+Definition render_ows (os : list oparam) : str :=
+  concat (map (fun o => 59 :: render_oparam o) os).
+
+Definition oparam_ok (o : oparam) : Prop :=
+  let '(post, p, trail) := o in
+  forallb blank post = true /\ forallb blank trail = true /\ cparam_ok p /\
+  forallb (fun c => negb (c =? 59)) (cp_value p) = true.
+
+Definition canon (p : cparam) : cparam :=
+  {| cp_spaces := 1; cp_name := cp_name p; cp_value := cp_value p;
+     cp_quoted := cp_quoted p; cp_trail := 0 |}.
+
+Lemma render_canon p : render_param (canon p) = 32 :: core_of p.
+Proof. unfold render_param, canon, core_of. cbn. destruct (cp_quoted p); reflexivity. Qed.
+
+Lemma token_not_ws c : is_token c = true -> is_ascii_ws c = false.
+Proof. unfold is_token, is_ascii_ws. lia. Qed.
+Lemma token_not_semi c : is_token c = true -> (c =? 59) = false.
+Proof. unfold is_token. lia. Qed.
+Lemma blank_not_semi c : blank c = true -> (c =? 59) = false.
+Proof. unfold blank. lia. Qed.
+
+Lemma forallb_not_in (p : N -> bool) k s :
+  forallb p s = true -> (forall c, p c = true -> (c =? k) = false) -> ~ In k s.
+Proof.
+  intros H Hp Hin. rewrite forallb_forall in H. specialize (Hp k (H k Hin)).
+  rewrite N.eqb_refl in Hp. discriminate.
+Qed.
+
+(* the shape of a well-formed core: starts and ends with a non-blank, holds no ';' *)
+Lemma core_shape p :
+  cparam_ok p -> forallb (fun c => negb (c =? 59)) (cp_value p) = true ->
+  (exists c x l, core_of p = c :: x ++ [l] /\ is_ascii_ws c = false /\ is_ascii_ws l = false)
+  /\ ~ In 59 (core_of p).
+Proof.
+  intros (Hn1 & Hn2 & Hv1 & Hv2) Hv59. unfold core_of.
+  destruct (cp_name p) as [|c name] eqn:En; [congruence|].
+  cbn [forallb] in Hn2. apply andb_true_iff in Hn2 as [Hc Hname].
+  assert (Hno_name : ~ In 59 (c :: name)).
+  { apply (forallb_not_in is_token); [cbn [forallb]; rewrite Hc, Hname; reflexivity|apply token_not_semi]. }
+  assert (Hno_val : ~ In 59 (cp_value p)).
+  { apply (forallb_not_in (fun c => negb (c =? 59))); [exact Hv59|].
+    intros x Hx. apply negb_true_iff in Hx. exact Hx. }
+  destruct (cp_quoted p).
+  - split.
+    + exists c, (name ++ 61 :: 34 :: cp_value p), 34.
+      split; [|split; [apply token_not_ws, Hc|reflexivity]].
+      cbn [app]. f_equal. rewrite <- app_assoc. reflexivity.
+    + intros Hin. cbn [app In] in Hin. destruct Hin as [Hin|Hin]; [apply Hno_name; left; exact Hin|].
+      apply in_app_or in Hin as [Hin|Hin]; [apply Hno_name; right; exact Hin|].
+      cbn [In] in Hin. destruct Hin as [Hin|[Hin|Hin]]; try lia.
+      apply in_app_or in Hin as [Hin|Hin]; [tauto|]. cbn [In] in Hin. destruct Hin as [Hin|[]]. lia.
+  - destruct (exists_last Hv1) as (v' & l & Ev). rewrite Ev in *.
+    rewrite forallb_app in Hv2. apply andb_true_iff in Hv2 as [_ Hl]. cbn [forallb] in Hl.
+    apply andb_true_iff in Hl as [Hl _].
+    split.
+    + exists c, (name ++ 61 :: v'), l.
+      split; [|split; [apply token_not_ws, Hc|apply token_not_ws, Hl]].
+      cbn [app]. f_equal. rewrite <- app_assoc. reflexivity.
+    + intros Hin. cbn [app In] in Hin. destruct Hin as [Hin|Hin]; [apply Hno_name; left; exact Hin|].
+      apply in_app_or in Hin as [Hin|Hin]; [apply Hno_name; right; exact Hin|].
+      cbn [In] in Hin. destruct Hin as [Hin|Hin]; [lia|tauto].
+Qed.
+
+Lemma normalize_ct_ows T S h0 os :
+  T <> [] -> S <> [] -> forallb is_token T = true -> forallb is_token S = true ->
+  forallb blank h0 = true -> Forall oparam_ok os ->
+  normalize_ct (T ++ 47 :: S ++ h0 ++ render_ows os)
+  = T ++ 47 :: S ++ render_params (map (fun o => canon (snd (fst o))) os).
+Proof.
+  intros HTn HSn HT HS Hh0 Hos. unfold normalize_ct, render_ows.
+  set (head := T ++ 47 :: S).
+  replace (T ++ 47 :: S ++ h0 ++ concat (map (fun o => 59 :: render_oparam o) os))
+    with ((head ++ h0) ++ concat (map (fun x => 59 :: x) (map render_oparam os))).
+  2:{ unfold head. rewrite map_map. rewrite <- !app_assoc. cbn [app]. rewrite <- app_assoc. reflexivity. }
+  assert (Hhead59 : ~ In 59 (head ++ h0)).
+  { unfold head. intros Hin. apply in_app_or in Hin as [Hin|Hin].
+    - apply in_app_or in Hin as [Hin|Hin].
+      + revert Hin. apply (forallb_not_in is_token); [exact HT|apply token_not_semi].
+      + cbn [In] in Hin. destruct Hin as [Hin|Hin]; [lia|].
+        revert Hin. apply (forallb_not_in is_token); [exact HS|apply token_not_semi].
+    - revert Hin. apply (forallb_not_in blank); [exact Hh0|apply blank_not_semi]. }
+  rewrite split_all_concat; [|exact Hhead59|].
+  2:{ apply Forall_forall. intros x Hx. apply in_map_iff in Hx as ([[post p] trail] & <- & Hin).
+      rewrite Forall_forall in Hos. destruct (Hos _ Hin) as (Hpost & Htrail & Hp & Hv59).
+      destruct (core_shape p Hp Hv59) as [_ Hc59]. unfold render_oparam.
+      intros Hi. apply in_app_or in Hi as [Hi|Hi].
+      - revert Hi. apply (forallb_not_in blank); [exact Hpost|apply blank_not_semi].
+      - apply in_app_or in Hi as [Hi|Hi]; [tauto|].
+        revert Hi. apply (forallb_not_in blank); [exact Htrail|apply blank_not_semi]. }
+  cbn [map].
+  (* the head trims to itself *)
+  assert (Hth : trim (head ++ h0) = head).
+  { destruct T as [|t0 T']; [congruence|].
+    destruct (exists_last HSn) as (S' & sl & ES).
+    cbn [forallb] in HT. apply andb_true_iff in HT as [Ht0 _].
+    rewrite ES, forallb_app in HS. apply andb_true_iff in HS as [_ Hsl]. cbn [forallb] in Hsl.
+    apply andb_true_iff in Hsl as [Hsl _].
+    unfold head. rewrite ES.
+    replace (((t0 :: T') ++ 47 :: S' ++ [sl]) ++ h0)
+      with ([] ++ (t0 :: (T' ++ 47 :: S') ++ [sl]) ++ h0).
+    2:{ cbn [app]. f_equal. rewrite <- !app_assoc. cbn [app]. reflexivity. }
+    rewrite trim_piece; [|reflexivity|exact Hh0|apply token_not_ws, Ht0|apply token_not_ws, Hsl].
+    cbn [app]. f_equal. rewrite <- app_assoc. reflexivity. }
+  rewrite Hth, join_semi_cons. unfold head. rewrite <- app_assoc. cbn [app]. do 2 f_equal.
+  f_equal.
+  (* each piece trims to its core, and "; core" is the canonical rendering *)
+  clear - Hos. induction Hos as [|[[post p] trail] os Ho _ IH]; [reflexivity|].
+  cbn [map concat render_params fst snd]. rewrite render_canon, <- IH. clear IH.
+  destruct Ho as (Hpost & Htrail & Hp & Hv59).
+  destruct (core_shape p Hp Hv59) as [(c & x & l & Ec & Hc & Hl) _].
+  unfold render_oparam. rewrite Ec, (trim_piece _ _ _ _ _ Hpost Htrail Hc Hl). reflexivity.
+Qed.
+
+Lemma canon_ok p : cparam_ok p -> cparam_ok (canon p).
+Proof. unfold cparam_ok, canon. cbn. tauto. Qed.
+
+(* C09 clause 5, full strength: any letter case of the media type; optional
+   blanks (SP / HTAB) before and after every ';' and at the end; token or
+   quoted-string values; the boundary parameter anywhere, its name in any
+   letter case *)
+Theorem multipart_boundary_ows T S h0 os b :
+  str_lower T = S_MULTIPART -> str_lower S = S_FORM_DATA ->
+  forallb blank h0 = true -> Forall oparam_ok os ->
+  assoc S_BOUNDARY (map (fun o => (str_lower (cp_name (snd (fst o))), cp_value (snd (fst o)))) os) = Some b ->
+  parse_boundary (normalize_ct (T ++ 47 :: S ++ h0 ++ render_ows os)) = BOk b.
+Proof.
+  intros HT HS Hh0 Hos Hb.
+  assert (HTt : forallb is_token T = true).
+  { rewrite <- (forallb_lower is_token T is_token_lower), HT. reflexivity. }
+  assert (HSt : forallb is_token S = true).
+  { rewrite <- (forallb_lower is_token S is_token_lower), HS. reflexivity. }
+  rewrite normalize_ct_ows; try assumption.
+  - apply multipart_boundary; [exact HT|exact HS| |].
+    + apply Forall_forall. intros p Hp. apply in_map_iff in Hp as (o & <- & Hin).
+      rewrite Forall_forall in Hos. specialize (Hos _ Hin). destruct o as [[post p] trail].
+      cbn [fst snd]. apply canon_ok, Hos.
+    + rewrite map_map. cbn [canon cp_name cp_value]. exact Hb.
+  - intros ->. discriminate HT.
+  - intros ->. discriminate HS.
+Qed.
+
+Corollary multipart_boundary_extracted T S h0 os b :
+  str_lower T = S_MULTIPART -> str_lower S = S_FORM_DATA ->
+  forallb blank h0 = true -> Forall oparam_ok os ->
+  assoc S_BOUNDARY (map (fun o => (str_lower (cp_name (snd (fst o))), cp_value (snd (fst o)))) os) = Some b ->
+  header_is_str (T ++ 47 :: S ++ h0 ++ render_ows os) = true ->
+  extract_multipart (HVal (T ++ 47 :: S ++ h0 ++ render_ows os)) = Ok b.
+Proof.
+  intros HT HS Hh0 Hos Hb Hh. cbn [extract_multipart]. rewrite Hh.
+  rewrite (multipart_boundary_ows _ _ _ _ _ HT HS Hh0 Hos Hb). reflexivity.
+Qed.
